@@ -351,15 +351,26 @@ class CStr(Sym):
         if not s.is_bytes:
             raise AttributeError("'str' object has no attribute 'decode'")
         out = []
+        run = []            # pending concrete bytes >= 0x80: decoded together when the run ends
+
+        def flush():
+            if run:
+                if encoding.lower().replace('-', '').replace('_', '') not in ('utf8', 'latin1', 'iso88591'):
+                    raise Unsupported('decode(%s) of non-ASCII bytes' % encoding)
+                out.extend(ord(c) for c in bytes(run).decode(encoding, errors))      # (raises like the real decoder)
+                del run[:]
         for ch in s.c:
             if _is_sym(ch):
                 if not E.branch(ch < 128):
                     raise Unsupported('decode of non-ASCII symbolic byte')
+                flush()
                 out.append(ch)
             elif ch < 128:
+                flush()
                 out.append(ch)
             else:
-                raise Unsupported('decode of non-ASCII byte')
+                run.append(ch)
+        flush()
         return CStr(out, intval=s.intval, is_bytes=False)
 
     def join(s, items):
